@@ -82,6 +82,7 @@ static void c11_exec(const op_t *op, int opidx) {
 	if (0 == strcmp(k, "shutdown")) {
 		if (pw->shutdown_called) sim_probe("c11.shutdown_repeated");
 		if (is_pool) sim_probe("c11.shutdown_from_pool");
+		if (item_get(it, "fullq", 0)) sim_probe("c11.shutdown_while_a_queue_is_being_filled");
 		C.shutdown_calls++;
 		tp_shutdown(pw->tp);
 		pw->shutdown_called = 1;
@@ -250,6 +251,24 @@ static void c11_gen(plan_t *p, rng_t *r, int tier) {
 	item_set(&p->cfg, "pool2", rng_chance(r, 100));
 	if (rng_chance(r, 60)) item_set(&p->cfg, "hookshut", 1 + (long long)rng_below(r, (uint64_t)n + 1));
 	int first_traffic = p->nops;
+	if (rng_chance(r, 50)) {
+		/* shutdown against a FULL queue: a worker is held in a callback, its (small) queue is filled to the brim and
+		 * shutdown is called meanwhile - the shutdown message has to get through once the worker drains its queue */
+		int a = (int)rng_below(r, (uint64_t)actors), d = (int)rng_below(r, (uint64_t)n);
+		item_set(&p->cfg, "pipe", 4096);
+		/* the caller's retry loop is really executed, 2 us a step: a worker held for 8..40 ms outlasts thousands of tries */
+		item_set(&p->sched, "stepns", 2000); item_set(&p->sched, "spinreal", 40000); item_set(&p->sched, "budget", 400000);
+		op = plan_add_op(p, "send");
+		item_set(&op->it, "actor", a); item_set(&op->it, "dst", d); item_set(&op->it, "flags", 0);
+		item_set(&op->it, "ns", (long long)rng_range(r, 8000000, 40000000)); item_set(&op->it, "via", -1);
+		op = plan_add_op(p, "wait");
+		item_set(&op->it, "actor", a); item_set(&op->it, "ns", (long long)rng_range(r, 100000, 2000000));
+		op = plan_add_op(p, "flood");
+		item_set(&op->it, "actor", a); item_set(&op->it, "dst", d); item_set(&op->it, "n", (long long)rng_range(r, 130, 200)); item_set(&op->it, "via", -1);
+		op = plan_add_op(p, "shutdown");
+		item_set(&op->it, "actor", rng_chance(r, 600) ? a : (long long)rng_below(r, (uint64_t)actors)); item_set(&op->it, "via", -1);
+		item_set(&op->it, "fullq", 1);
+	}
 	{
 		int ntraffic = (int)rng_below(r, (tier == TIER_QUICK) ? 8 : 16);
 		int nshut = (int)rng_below(r, 4);            /* explicit shutdown calls (0 = destroy does it) */
